@@ -2,6 +2,7 @@ import WacModel.Parser
 import WacModel.Spec.Grammar
 import WacProofs.Lemmas.Screen
 import WacProofs.Lemmas.ParserBasic
+import WacProofs.Lemmas.LexKeyword
 /-
   C12 — the parser accepts exactly the documented grammar and builds the intended tree.
   (first stage: table obligations and the screen; soundness/completeness follow)
@@ -96,5 +97,21 @@ example : (match parseDocument "package a:b; type t = tuple<>;".toList with
 example : (match parseDocument "package a:b; record r { a: u8 }".toList with
     | .ok d => d.statements.length == 1
     | _ => false) = true := by decide
+
+/-- `lex_spec`, keyword priority (w.r.t. the *generated* keyword table): whenever the lexer model
+returns an identifier token it is the longest identifier at that position (`idLen`) and its text is
+not a keyword; a package name/path token consists of the characters of the documented name
+patterns only, and a package path contains a `/`.
+(The full `lex_spec` — the hand-written recognisers equal `Spec.Grammar.Re.longest` of the documented
+regular expressions — is not proved; the specification's lexer runs next to the model on every case.) -/
+theorem lex_keyword_priority :
+    (∀ s n, lexStep s = .tok (.ok .Ident) n → n = idLen s ∧ lookupKeyword (s.take n) = none) ∧
+    (∀ s k n, lexStep s = .tok (.ok k) n → (k = .PackageName ∨ k = .PackagePath) →
+      0 < n ∧ (∀ c ∈ s.take n, Wac.Lemmas.LexAscii.nameChar c = true) ∧ (k = .PackagePath → '/' ∈ s.take n)) := by
+  refine ⟨fun s n h => Wac.Lemmas.LexKeyword.ident_not_keyword h, fun s k n h hk => ?_⟩
+  exact Wac.Lemmas.LexAscii.lexStep_pkg_all h (by rcases hk with rfl | rfl <;> rfl)
+
+example : ((tokenize "type types %type".toList).map (fun t => (t.tok?, t.span.len))) =
+    [(some .TypeKeyword, 4), (some .Ident, 5), (some .Ident, 5)] := by decide
 
 end Wac.Props.C12
